@@ -16,6 +16,8 @@ package main
 //       and nothing but the filler stores those two fields;
 //   (c) every path of the filler and of every other gate (validate) that returns an error carries a
 //       reason: a failed call, or the argument list known to be empty;
+//   (e) the constructor's command is added, on every path, to a command that is itself added … up to
+//       the root command a main package builds (otherwise the documented command does not exist);
 //   (d) the constructor registers the config flags (AddFlags(cmd.Flags())) on the command that
 //       carries the closure, on every path, so that --namespace exists.
 //
@@ -64,6 +66,7 @@ func c19Wiring(r *Run, cmds []*c19Cmd) {
 		for _, cl := range w.closures {
 			w.checkClosure(r, cl)
 			w.checkConstructor(r, cl)
+			w.checkAttached(r, cl)
 		}
 		for _, f := range w.fillers {
 			w.checkFiller(r, f)
@@ -227,7 +230,7 @@ func (w *c19wCmd) findClosures(r *Run) {
 }
 
 // errNilFact: f says "call result E (of error type) is nil" (truth given by the returned bool).
-func c19wErrNilFact(f Fact) (ssa.Value, bool, bool) {
+func c19wErrNilFact(p *Path, f Fact) (ssa.Value, bool, bool) {
 	bo, ok := f.V.(*ssa.BinOp)
 	if !ok || (bo.Op != token.EQL && bo.Op != token.NEQ) {
 		return nil, false, false
@@ -243,6 +246,9 @@ func c19wErrNilFact(f Fact) (ssa.Value, bool, bool) {
 	}
 	if !types.Identical(e.Type(), types.Universe.Lookup("error").Type()) {
 		return nil, false, false
+	}
+	if p != nil {
+		e = p.Resolve(e) // an error variable assigned on several branches: the value it has on this path
 	}
 	// Key is (x==nil) with polarity Pol
 	return e, f.Pol, true
@@ -295,7 +301,7 @@ func (w *c19wCmd) checkClosure(r *Run, cl *ssa.Function) {
 			// gate facts
 			haveFill := false
 			for _, f := range p.Facts {
-				e, isNil, ok := c19wErrNilFact(f)
+				e, isNil, ok := c19wErrNilFact(p, f)
 				if !ok || !isNil {
 					continue
 				}
@@ -331,7 +337,7 @@ func (w *c19wCmd) checkClosure(r *Run, cl *ssa.Function) {
 			v := p.Resolve(ret.Results[0])
 			known := false
 			for _, f := range p.Facts {
-				if e, isNil, ok := c19wErrNilFact(f); ok && !isNil && unwrap(e) == unwrap(v) {
+				if e, isNil, ok := c19wErrNilFact(p, f); ok && !isNil && unwrap(e) == unwrap(v) {
 					known = true
 				}
 			}
@@ -500,7 +506,7 @@ func (w *c19wCmd) checkRefusals(r *Run, g *ssa.Function, filler *ssa.Function, l
 		n++
 		reason := false
 		for _, f := range p.Facts {
-			if e, isNil, ok := c19wErrNilFact(f); ok && !isNil && c19wCallOfErr(e) != nil {
+			if e, isNil, ok := c19wErrNilFact(p, f); ok && !isNil && c19wCallOfErr(e) != nil {
 				reason = true
 			}
 			if X, set, ok := c19wLenFact(f); ok && c19wOnlyZero(set) {
@@ -522,7 +528,7 @@ func (w *c19wCmd) checkRefusals(r *Run, g *ssa.Function, filler *ssa.Function, l
 
 func (w *c19wCmd) knownNil(p *Path, v ssa.Value) bool {
 	for _, f := range p.Facts {
-		if e, isNil, ok := c19wErrNilFact(f); ok && isNil && unwrap(e) == unwrap(v) {
+		if e, isNil, ok := c19wErrNilFact(p, f); ok && isNil && unwrap(e) == unwrap(v) {
 			return true
 		}
 	}
@@ -587,7 +593,7 @@ func (w *c19wCmd) checkFiller(r *Run, f *ssa.Function) {
 		argsEmpty := false
 		flagKnownEmpty, flagKnownSet := false, false
 		for _, fct := range p.Facts {
-			if e, isNil, ok := c19wErrNilFact(fct); ok && !isNil && c19wCallOfErr(e) != nil {
+			if e, isNil, ok := c19wErrNilFact(p, fct); ok && !isNil && c19wCallOfErr(e) != nil {
 				failedBad++
 				failWhy = "a path returning success knows " + calleeName(&c19wCallOfErr(e).Call) + " to have failed"
 			}
@@ -768,7 +774,7 @@ func (w *c19wCmd) checkConstructor(r *Run, cl *ssa.Function) {
 // string (genericclioptions.ConfigFlags), pflag's GetString cannot fail, so such a path is infeasible.
 func c19wFlagLookupFailed(p *Path, fn *ssa.Function) bool {
 	for _, f := range p.Facts {
-		e, isNil, ok := c19wErrNilFact(f)
+		e, isNil, ok := c19wErrNilFact(p, f)
 		if !ok || isNil {
 			continue
 		}
@@ -785,6 +791,88 @@ func c19wFlagLookupFailed(p *Path, fn *ssa.Function) bool {
 		if c, ok := ex.Tuple.(*ssa.Call); ok && strings.HasSuffix(calleeName(&c.Call), "pflag.FlagSet).GetString") && len(c.Call.Args) == 2 {
 			if s, ok := constString(c.Call.Args[1]); ok && s == "namespace" {
 				return true
+			}
+		}
+	}
+	return false
+}
+
+// checkAttached: the command built by the handler's constructor is reachable from the root command of a
+// main package through AddCommand calls that execute on every path of the function making them.
+func (w *c19wCmd) checkAttached(r *Run, cl *ssa.Function) {
+	ctor := cl.Parent()
+	if ctor == nil {
+		return
+	}
+	all := map[*ssa.Function]bool{}
+	for _, f := range r.Prog.RepoFuncs() {
+		all[f] = true
+	}
+	var chain []string
+	seen := map[*ssa.Function]bool{}
+	var attached func(fn *ssa.Function) bool
+	attached = func(fn *ssa.Function) bool {
+		if seen[fn] {
+			return false
+		}
+		seen[fn] = true
+		for _, cs := range callSitesOf(fn, all) {
+			call, ok := cs.(*ssa.Call)
+			if !ok {
+				continue
+			}
+			g := call.Parent()
+			if g.Pkg != nil && g.Pkg.Pkg.Name() == "main" {
+				chain = append(chain, shortFunc(g))
+				return true
+			}
+			if !c19wFlowsToAddCommand(call) {
+				continue
+			}
+			onAll := true
+			for _, b := range g.Blocks {
+				if isReturnBlock(b) && !call.Block().Dominates(b) {
+					onAll = false
+				}
+			}
+			if !onAll {
+				continue
+			}
+			if attached(g) {
+				chain = append(chain, shortFunc(g))
+				return true
+			}
+		}
+		return false
+	}
+	ok := attached(ctor)
+	r.Check(c19wRule, "command of handler "+shortFunc(cl)+" is part of the kubectl-eds command tree ("+w.c.label+")", r.Prog.Pos(ctor.Pos()), shortFunc(ctor), "the command is added with AddCommand, on every path, to a command that is in turn added up to the root command built by a main package", ok, strings.Join(chain, " <- "))
+}
+
+// c19wFlowsToAddCommand: the call's result is an element of the variadic argument of (*cobra.Command).AddCommand.
+func c19wFlowsToAddCommand(call *ssa.Call) bool {
+	for _, ref := range *call.Referrers() {
+		st, ok := ref.(*ssa.Store)
+		if !ok || st.Val != ssa.Value(call) {
+			continue
+		}
+		ia, ok := st.Addr.(*ssa.IndexAddr)
+		if !ok {
+			continue
+		}
+		al, ok := ia.X.(*ssa.Alloc)
+		if !ok {
+			continue
+		}
+		for _, r2 := range *al.Referrers() {
+			sl, ok := r2.(*ssa.Slice)
+			if !ok {
+				continue
+			}
+			for _, r3 := range *sl.Referrers() {
+				if c, ok := r3.(*ssa.Call); ok && strings.HasSuffix(calleeName(&c.Call), "cobra.Command).AddCommand") {
+					return true
+				}
 			}
 		}
 	}
